@@ -35,6 +35,8 @@ def gen_config(rng, small=False, low=0.08):
         fs = float(rng.choice([100., 128.]))
         return fs, float(rng.choice([25., 30.])), fs / 2 - float(rng.choice([0.25, 0.5]))
     fs = float(rng.choice(FS_CHOICES[:5] if small else FS_CHOICES))
+    if rng.random() < 0.06:
+        fs = float(rng.choice([512.5, 250.5, 199.5, 1000.25]))       # sampling rates need not be whole numbers
     f_lo = float(rng.choice([2, 4, 6, 8, 13, 20]))
     f_hi = f_lo + float(rng.choice([2, 4, 6, 8, 10]))
     if f_hi >= fs / 2:
@@ -231,8 +233,9 @@ def gen_pipeline_case(rng, families=None, methods=('cycles', 'amp'), nsec=(1.0, 
             bk['fs'] = fs * 2
             bk['f_range'] = (lo + 1.0, hi + 1.0)
             kind = kind + '+stale_fs_keys'
-    view = [None, None, None, None, None, None, 'strided', 'readonly'][int(rng.integers(0, 8))]
+    view = [None, None, None, None, None, 'subclass', 'strided', 'readonly'][int(rng.integers(0, 8))]
     return dict(sig=sig, sig_view=view, fs=fs, f_range=(lo, hi), center_extrema=center, burst_method=method,
                 burst_kwargs=bk, threshold_kwargs=thr, find_extrema_kwargs=fek,
                 return_samples=bool(rng.random() < 0.8), family=kind, route=route,
-                obj_refit=[None, 'attribute', 'buffer'][int(rng.integers(0, 3))])
+                obj_refit=[None, 'attribute', 'buffer'][int(rng.integers(0, 3))],
+                arg_types=[None, None, None, 'numpy', 'ints', 'mixed'][int(rng.integers(0, 6))])
